@@ -370,7 +370,7 @@ func initiatorBody(depth int) nd.Body {
 var serverLists = [][]sasl.Mechanism{{sasl.Plain}, {sasl.Plain, sasl.ScramSha1}}
 var clientSays = []string{
 	"auth-plain-valid", "auth-plain-wrong-password", "auth-plain-malformed", "auth-plain-empty", "auth-plain-eq", "auth-plain-bad-base64", "auth-plain-valid-then-corrupt-base64", "auth-plain-valid-overpadded-base64", "auth-plain-four-parts",
-	"auth-unoffered-scram256", "auth-unknown", "auth-no-mechanism", "auth-scram-first",
+	"auth-unoffered-scram256", "auth-unknown", "auth-lowercase-name-valid", "auth-no-mechanism", "auth-scram-first",
 	"response-valid-plain", "response-empty", "abort", "failure", "unknown-sasl-element", "foreign-element", "text", "eof",
 }
 
@@ -441,6 +441,9 @@ func receiverBody(depth int) nd.Body {
 				return auth("PLAIN", b64("\x00me\x00secret\x00x")), nil
 			case "auth-unoffered-scram256":
 				return auth("SCRAM-SHA-256", b64("n,,n=me,r=abc")), nil
+			case "auth-lowercase-name-valid":
+				// mechanism names are case-sensitive tokens: "plain" was not offered
+				return auth("plain", b64("\x00me\x00secret")), nil
 			case "auth-unknown":
 				return auth("X-UNKNOWN", b64("\x00me\x00secret")), nil
 			case "auth-no-mechanism":
